@@ -5,6 +5,7 @@ import (
 	"encoding/hex"
 	"encoding/json"
 	"fmt"
+	"os"
 	"sort"
 	"strings"
 	"sync"
@@ -317,6 +318,13 @@ type SeqSummary struct {
 func RunSeq(r *report.Report, name string, depth int) *SeqSummary {
 	spec := seqSpecs[name]
 	sum := &SeqSummary{Spec: name, Depth: depth, Complete: true}
+	if only := os.Getenv("VERIF_SEQ"); only != "" && only != name {
+		// development aid: run a single search of a check (the run then does not count as exhaustive)
+		r.Exhaustive = false
+		r.Note("search %s not run (VERIF_SEQ filter)", name)
+		sum.Complete = false
+		return sum
+	}
 	seen := map[string]bool{}
 	frontier := [][]fsx.Op{{}}
 	sum.States = 1
